@@ -31,7 +31,7 @@ def gen(rng, tier):
         focus["nested"] = True
     if rng.random() < 0.4:
         focus["facilities"] = True
-    spec = C.gen_edit(rng, C.maybe_history(rng, C.forward_spec(rng, tier, focus), 0.3))
+    spec = C.gen_edit(rng, C.maybe_from_json(rng, C.maybe_history(rng, C.forward_spec(rng, tier, focus), 0.3)))
     if spec.get("history") is None and not spec.get("edit") and rng.random() < 0.2:
         if not spec["cfg"].get("absence"):
             spec["cfg"]["absence"] = G.gen_absence(rng, 16, rng.randint(2, 6))
